@@ -170,11 +170,13 @@ Definition has_aliases (t : token) : bool :=
 Definition old_target (t : token) (target : Z) : Z :=
   if target =? 0 then 0 else if on_chain t target then target else 0.
 (* the representation the holder ends up with *)
+(* GetTargetCoin: "no convert required" when the pair has no aliases or the coin's denom is not one of the token's *)
+Definition no_convert (t : token) (src : Z) : bool := is_fx t || negb (has_aliases t) || negb (has_rep t src).
 Definition converted_rep (t : token) (src target : Z) : Z :=
-  if is_fx t || negb (has_aliases t) then src else old_target t target.
+  if no_convert t src then src else old_target t target.
 
 Definition convert_denom_to_target (t : token) (from src target : Z) (x : Z) : prog :=
-  if is_fx t || negb (has_aliases t) then []
+  if no_convert t src then []
   else
     let tg := old_target t target in
     if src =? tg then []
@@ -532,15 +534,19 @@ Definition send_to_fx (t : token) (c receiver x target : Z) : M :=
   (if target =? 1 then doB (base_to_evm t receiver x) else ret).
 
 (* BridgeCallHandler: deposit to the receiver, BridgeCallEvm in a cache branch (ConvertCoin each to the receiver,
-   then the EVM call whose outcome evm_ok is known from the kind of `to`); on failure BridgeCallFailedRefund
-   = AddOutgoingBridgeCall FROM THE REFUND ADDRESS. *)
+   then the EVM call whose outcome evm_ok is known from the kind of `to`); on failure the deposited base coins are
+   handed from the receiver to the refund address (bank SendCoins, skipped when they are the same account) and
+   BridgeCallFailedRefund = AddOutgoingBridgeCall from the refund address. *)
 Definition bridge_call_in (g : cfg) (c receiver refund : Z) (toks : list (Z * Z)) (evm_ok : bool) (timeout : Z) : M :=
   doB (each_tok g (fun t x => bridge_token_to_base t c receiver x) toks) ;;
   each_dep c toks ;;
   (fun s =>
      match (if evm_ok then doB (each_tok g (fun t x => base_to_evm t receiver x) toks) s else None) with
      | Some s' => Some s'
-     | None => add_outgoing_bridge_call g c refund refund toks timeout s
+     | None =>
+       ((if receiver =? refund then ret
+         else doB (each_tok g (fun t x => send receiver refund (base_of t) x) toks)) ;;
+        add_outgoing_bridge_call g c refund refund toks timeout) s
      end).
 
 (* ---------- precompile entry points called by an externally-owned account ---------- *)
